@@ -930,3 +930,104 @@ Proof.
   intro Hosz. apply C05_accept; assumption.
 Qed.
 Print Assumptions C08_cbor_reparse.
+
+(* ====================================================================== *)
+(* Part E: sequences of documents - the converse of C09_cbor_accepted_wf    *)
+(* ====================================================================== *)
+
+Lemma feed_accepts : forall fuel b s g vs, (length b < fuel)%nat ->
+  all_bytes b = true -> zlen b <= MaxInt64 -> s_fail s = None ->
+  cbor_decode_all g b = Some vs ->
+  exists ts, feed fuel cparser0 s b = Ok (cparser0, sadd s (flat_map flatten ts), nilE) /\
+             forallb wf_tree ts = true /\ tvals ts = vs.
+Proof.
+  induction fuel as [|f IH]; intros b s g vs Hlen Hb Hsz Hs Hall; [lia|].
+  destruct g as [|g]; [discriminate|]. cbn [cbor_decode_all] in Hall.
+  destruct b as [|x r].
+  { inversion Hall; subst. exists []. cbn [flat_map]. rewrite sadd_nil, feed_S.
+    change (zlen (@nil Z) >? 0) with false. cbv iota. repeat split. }
+  set (b := x :: r) in *.
+  assert (Hne : b <> []) by discriminate.
+  assert (Hf : fuel_ok (S (length b)) b).
+  { unfold fuel_ok, MaxInt64, zlen in *. split; lia. }
+  destruct (cbor_decode b) as [v rest| | |] eqn:Hd; try discriminate.
+  destruct (cbor_decode_all g rest) as [vs'|] eqn:Hall'; [|discriminate].
+  inversion Hall; subst vs. unfold cbor_decode in Hd.
+  destruct (value_ok _ b v rest Hd Hb Hf cparser0 s vctx_top Hs)
+    as (t & n & Hwf & Hcv & (Hc & Hrb) & Hreach).
+  pose proof (feed_until_top_value b s _ rest n Hne ltac:(lia) Hreach) as Hfu.
+  destruct (IH rest (sadd s (flatten t)) g vs' ltac:(lia) Hrb ltac:(unfold zlen in *; lia)
+              ltac:(rewrite sadd_fail; exact Hs) Hall') as (ts & Hfeed & Hwfs & Hvs).
+  exists (t :: ts). rewrite feed_S, (zlen_pos_gt b Hne), Hfu.
+  change (isnil nilE) with true. cbv iota. rewrite Hfeed. cbn [flat_map forallb].
+  rewrite sadd_app, Hwf, Hwfs. unfold tvals in *. cbn [map]. rewrite Hcv, Hvs. repeat split.
+Qed.
+
+(* C05 for sequences of items: everything the reference decodes completely is
+   accepted, with the reference's values *)
+Theorem C05_accept_stream : forall b g vs, all_bytes b = true -> (zlen b <=? MaxInt64) = true ->
+  cbor_decode_all g b = Some vs ->
+  exists ts, run_parse None b = Ok (flat_map flatten ts, nilE) /\
+             forallb wf_tree ts = true /\ map (fun t => cv (value_of t)) ts = vs.
+Proof.
+  intros b g vs Hb Hsz Hall.
+  destruct (feed_accepts (2 * length b + 2) b (sink0 None) g vs ltac:(lia) Hb ltac:(lia) eq_refl Hall)
+    as (ts & Hfeed & Hwf & Hvs).
+  exists ts. unfold run_parse, p_parse. rewrite Hfeed.
+  change (isnil nilE) with true. cbv iota. change (finalize cparser0) with nilE.
+  rewrite sadd_log. auto.
+Qed.
+Print Assumptions C05_accept_stream.
+
+(* acceptance by the parser = complete decodability by the reference *)
+Theorem C05_cbor_accept_iff : forall b, all_bytes b = true -> (zlen b <=? MaxInt64) = true ->
+  ((exists evs, run_parse None b = Ok (evs, nilE)) <->
+   (exists vs, cbor_decode_all (S (length b)) b = Some vs)).
+Proof.
+  intros b Hb Hsz. split.
+  - intros (evs & H). destruct (C09_cbor_accepted_wf b evs Hb Hsz H) as (ts & _ & _ & Hall). eauto.
+  - intros (vs & H). destruct (C05_accept_stream b _ vs Hb Hsz H) as (ts & Hrun & _). eauto.
+Qed.
+Print Assumptions C05_cbor_accept_iff.
+
+(* C01 for streams of documents, any chunking *)
+Theorem C01_cbor_stream : forall ts, forallb wf_tree ts = true -> forallb tree_small ts = true ->
+  exists bs, cbor_encode (flat_map flatten ts) = Some bs /\ all_bytes bs = true /\
+    ((zlen bs <=? MaxInt64) = true ->
+     forall cs, concat cs = bs ->
+       exists ts', run_chunks None cs = Ok (flat_map flatten ts', nilE) /\
+                   forallb wf_tree ts' = true /\
+                   map (fun t => cv (value_of t)) ts' = map (fun t => cv (value_of t)) ts).
+Proof.
+  intros ts Hw Hs. destruct (RoundtripProofs.C07_cbor_stream ts Hw Hs) as (bs & E & D).
+  assert (Hb : all_bytes bs = true).
+  { eapply cbor_encode_bytes; [|exact E]. rewrite forallb_flat_map.
+    eapply forallb_impl; [|exact Hw]. intros t. apply flatten_ev_ok. }
+  exists bs. split; [exact E|]. split; [exact Hb|]. intros Hsz cs Hc.
+  destruct (C05_accept_stream bs _ _ Hb Hsz D) as (ts' & Hrun & Hwf & Hvs).
+  exists ts'. rewrite chunks_as_parse by (rewrite Hc; exact Hb). rewrite Hc. auto.
+Qed.
+Print Assumptions C01_cbor_stream.
+
+(* sanity checks of the statements on concrete inputs *)
+Example compose_example :
+  let t := TObj (-1) BAny
+             [([97], false, TArr 2 BAny [TVal (SNum KInt8 (-5)) false; TVal (SStr [104;105]) true]);
+              ([98], true, TXArr BByte [SNum KByte 255; SNum KByte 1]);
+              ([99], false, TXObj BFloat32 [([100], SNum KFloat32 1065353216)])] in
+  match cbor_encode (flatten t) with
+  | Some bs =>
+      all_bytes bs = true /\
+      match run_chunks None [firstn 3 bs; skipn 3 bs] with
+      | Ok (evs, e) =>
+          e = nilE /\
+          match stream_tree evs, cbor_encode evs with
+          | Some t', Some out => wf_tree t' = true /\ cv (value_of t') = cv (value_of t) /\
+                                 cbor_decode out = cbor_decode bs
+          | _, _ => False
+          end
+      | _ => False
+      end
+  | None => False
+  end.
+Proof. vm_compute. auto. Qed.
